@@ -262,7 +262,10 @@ class NestedTransformer(Transformer):
         visited = tuple(v for i, v in zip(o, visited) if v is not None and (isinstance(i, tuple) or as_tuple(v)))
 
         # Inject any matching sub-set of nodes into current tuple
-        return self._inject_tuple_mapping(visited)
+        visited = self._inject_tuple_mapping(visited)
+
+        # The injection may leave None entries behind
+        return tuple(i for i in visited if i is not None)
 
     visit_list = visit_tuple
 
